@@ -13,17 +13,18 @@ SeqSet(s) == {s[i] : i \in 1..Len(s)}
 P   == SeqSet(Rec.pats)
 Lin == SeqSet(Rec.linted)
 Rep == SeqSet(Rec.reported)
-ML  == MustLint(P, Rec.target, Rec.recursive)
-MS  == MustSkip(P, Rec.target, Rec.recursive)
+TargetSet == {Rec.target[i] : i \in 1..Len(Rec.target)}
+ML  == MustLint(P, TargetSet, Rec.recursive)
+MS  == MustSkip(P, TargetSet, Rec.recursive)
 Planted(f) == f.ext \in {"py", "ts"}
 
 LayerA == IF (Lin \cup Rep) \cap MS # {} THEN "Visited"
           ELSE IF ~(ML \subseteq Lin) THEN "Missed"
           ELSE IF ~({f \in ML : Planted(f)} \subseteq Rep) THEN "NotReported"
           ELSE "ok"
-LayerB == IF Lin = LintedB(P, Rec.target, Rec.recursive) THEN "ok" ELSE "LintedSetDiffers"
+LayerB == IF Lin = LintedB(P, TargetSet, Rec.recursive) THEN "ok" ELSE "LintedSetDiffers"
 
-TraceInit == tid = 1 /\ pats = {} /\ recursive = TRUE /\ target = <<>> /\ done = FALSE
+TraceInit == tid = 1 /\ pats = {} /\ recursive = TRUE /\ target = {<<>>} /\ done = FALSE
 TraceNext == /\ tid <= Len(Traces)
              /\ PrintT(<<"VERDICT", tid, LayerA, LayerB, 0>>)
              /\ tid' = tid + 1 /\ UNCHANGED vars
